@@ -306,3 +306,47 @@ def _locals_order(ctx):
             lst, mul = (a.left, a.right) if isinstance(a.left, ast.List) else (a.right, a.left)
             ok = isinstance(lst, ast.List) and len(lst.elts) == 1 and norm(mul) == cvar and tvar in norm(lst.elts[0])
     ctx.ob("C21.R8", site, "the reader appends count copies of the group's type, group after group (count read before type)", ok, construct="reader-expands-in-order")
+    _inline_data_memory(ctx)
+
+
+def _inline_data_memory(ctx):
+    """R9: `(memory (data "..."))` declares a memory of exactly ceil(len / 64 KiB) pages (min == max), as the reference
+    assembler does; the page count comes from round_up(len, PAGE_SIZE) // PAGE_SIZE."""
+    from .. import minieval
+    PA = "ppci/wasm/text/parser.py"
+    ctx.rule("C21.R9", "text format, memory with inline data: the declared size is ceil(len(data) / PAGE_SIZE) pages - round_up(v, m) is the least multiple of m that is >= v (v itself when it already is a multiple, 0 for 0)", floor=3)
+    ru = ctx.fn(PA, "round_up")
+    bad = []
+    try:
+        for m in (1, 2, 3, 4, 7, 16):
+            for v in range(0, 3 * m + 2):
+                r = minieval.call(ru, [v, m])
+                if not (isinstance(r, int) and r % m == 0 and r >= v and r - v < m):
+                    bad.append((v, m, r))
+        ctx.ob("C21.R9", PA + ":round_up", "for every value v and multiple m (all residues, three periods, m in 1..16): the result is a multiple of m, >= v and < v + m", not bad, construct="round-up-least-multiple",
+               detail="; ".join("round_up(%d, %d) = %r" % b for b in bad[:4]))
+    except minieval.Undecidable as e:
+        ctx.undecided("C21.R9", PA + ":round_up", "round_up could not be evaluated: %s" % e)
+    pm = ctx.fn(PA, "WatParser.parse_memory")
+    site = PA + ":WatParser.parse_memory"
+    calls = [c for c in ast.walk(pm) if isinstance(c, ast.Call) and norm(c.func) == "round_up"]
+    ok = len(calls) == 1 and [" ".join(norm(a).split()) for a in calls[0].args] == ["len(data)", "PAGE_SIZE"]
+    par = calls[0]._parent if calls else None
+    ok = ok and isinstance(par, ast.BinOp) and isinstance(par.op, ast.FloorDiv) and norm(par.right) == "PAGE_SIZE"
+    ctx.ob("C21.R9", site, "the page count is round_up(len(data), PAGE_SIZE) // PAGE_SIZE", ok, construct="pages-from-length", detail=norm(par) if par is not None else "")
+    asg = [n for n in ast.walk(pm) if isinstance(n, ast.Assign) and calls and any(x is calls[0] for x in ast.walk(n.value))]
+    v = norm(asg[0].targets[0]) if asg else None
+    ok = False
+    det = ""
+    if asg:
+        # the branch (statement list) that holds the page computation
+        lst = asg[0]._parent
+        body = next((getattr(lst, f) for f in ("body", "orelse") if asg[0] in getattr(lst, f, [])), [])
+        alias = {v}
+        for st in body:
+            if isinstance(st, ast.Assign) and isinstance(st.targets[0], ast.Name) and isinstance(st.value, ast.Name) and st.value.id in alias:
+                alias.add(st.targets[0].id)
+        mem = [c for st in body for c in ast.walk(st) if isinstance(c, ast.Call) and norm(c.func).endswith("Memory")]
+        ok = len(mem) == 1 and len(mem[0].args) == 3 and all(isinstance(a, ast.Name) and a.id in alias for a in mem[0].args[1:])
+        det = norm(mem[0])[:80] if mem else ""
+    ctx.ob("C21.R9", site, "minimum and maximum of the declared memory are both that page count", ok, construct="min-equals-max", detail=det)
